@@ -719,6 +719,7 @@ pub fn build(quick: bool) -> Check {
             lens: super::soak::lens(quick),
             mixes: super::soak::MIXES.to_vec(),
             opts: vec![("reads of 1 byte", reads(1)), ("reads of at most 5 bytes", reads(5)), ("reads of at most 61 bytes", reads(61)), ("reads of at most 4093 bytes", reads(4093)), ("whole reads", reads(usize::MAX))],
+            big: vec![(70_001, super::soak::Mix::Even, 3), (66_000, super::soak::Mix::Text, 2)],
         }));
     }
     for (d, c) in if quick { vec![(5, 1), (3, 2)] } else { vec![(6, 1), (4, 2), (3, 3)] } {
